@@ -161,6 +161,7 @@ type Eval struct {
 	refs             map[string]Layout // loop-invariant values referenced at offsets affine in t
 	mapGlobals       []*Obj
 	Reads            []ReadInfo
+	QuoteRenders     []QuoteRec                // files rendered by hand in the generator (bufferRendered)
 	limited          map[*Obj]limitedRead      // buffers read through io.LimitReader (refineLimited)
 	errObj           map[ssa.Instruction]*Obj  // per read call: what is known about its error on the current path
 	lastRets         []retRec                  // the individual returns of the function evaluated last
@@ -1361,6 +1362,13 @@ func (e *Eval) refineWorlds(fr *frame, st State, cond ssa.Value, taken bool) Sta
 		st = n
 	}
 	return st
+}
+
+// QuoteRec: a hand-rendered file, the buffer it was rendered into and the state at that point.
+type QuoteRec struct {
+	Render *QuoteRender
+	Buf    ResV
+	State  State
 }
 
 // limitedRead: a buffer filled by ReadAll(io.LimitReader(body, N)).
